@@ -148,6 +148,19 @@ func randType(r *vh.Rng, depth int) reflect.Type {
 	case 4, 5:
 		return reflect.SliceOf(randType(r, depth-1))
 	case 6:
+		if depth >= 2 && r.Chance(1, 2) {
+			// maps of structs / pointers to structs: where MapValueReset and the in-place update differ
+			n := 2 + r.Intn(2)
+			var fs []reflect.StructField
+			for i := 0; i < n; i++ {
+				fs = append(fs, reflect.StructField{Name: string(rune('A' + i)), Type: randType(r, 0)})
+			}
+			st := reflect.StructOf(fs)
+			if r.Bool() {
+				return reflect.MapOf(tStr, reflect.PointerTo(st))
+			}
+			return reflect.MapOf(tStr, st)
+		}
 		return reflect.MapOf(tStr, randType(r, depth-1))
 	default:
 		n := 1 + r.Intn(4)
